@@ -157,17 +157,21 @@ fn explore(ctx: &Ctx) -> Outcome {
         layers.push(json!({"family": "call histories: failing parse of every truncation, then a full round trip, on one thread", "cuts": img.len(), "completed": true}));
         total.absorb(t);
     }
-    // large archives (tables and text beyond 64 KiB)
-    for c in binfam::big_cases() {
-        let mut t = Tally::new();
-        t.cases += 1;
-        t.nontrivial += 1;
-        if let Some((sig, summary)) = judge(&c, &mut t, false) {
-            t.violate(format!("big:{}", sig), summary, json!({"big": format!("{:?}/{} bytes", c.endian, c.size())}));
-        }
-        total.absorb(t);
-    }
-    layers.push(json!({"family": "large archives (300 and 20 000 cells, strings/pointers/labels interleaved)", "archives": binfam::big_cases().len(), "completed": true}));
+    // large archives (tables and text beyond 64 KiB; a ladder of cell counts)
+    let bigs = binfam::big_cases();
+    let t = bigs
+        .par_iter()
+        .fold(Tally::new, |mut t, c| {
+            t.cases += 1;
+            t.nontrivial += 1;
+            if let Some((sig, summary)) = judge(c, &mut t, false) {
+                t.violate(format!("big:{}", sig), summary.chars().take(500).collect::<String>(), json!({"big": format!("{:?}/{} bytes", c.endian, c.size())}));
+            }
+            t
+        })
+        .reduce(Tally::new, Tally::merge);
+    total.absorb(t);
+    layers.push(json!({"family": "large archives (cell counts 100..20 000 on a 2^k±1 ladder, strings/pointers/labels interleaved)", "archives": bigs.len(), "completed": true}));
     let s = binfam::case_at(&binfam::cfgs(ctx.tier, true)[0], 8, 12345);
     total.sample(binfam::describe(&s));
     let mut o = total.into_outcome(
